@@ -55,16 +55,27 @@ def install(ctx, repo, probes):
             ctx.target("default/%s/%s" % (rep, form))
     for m in R.MODES:
         ctx.target("mode/" + m)
+    ctx.target("reader/0", "reader/1", "reader/2", "reader/3",
+               "own-format/0-digits", "own-format/1-digits",
+               "own-format/2-digits", "own-format/3-digits")
     ctx.target("expanded-year", "negative-year", "zero-hour-negative-minutes",
                "custom/literal-zone", "custom/placeholder-zone", "custom/Z",
                "custom/basic", "custom/ext", "custom/cross-representation")
 
 
-def _parser(ctx, repo, n):
-    if n not in ctx.parsers:
-        ctx.parsers[n] = repo.parsers.TimePointParser(
-            num_expanded_year_digits=n)
-    return ctx.parsers[n]
+READERS = ({}, {"assumed_time_zone": (5, 30)},
+           {"assumed_time_zone": (-3, -30)},
+           {"default_to_unknown_time_zone": True})
+
+
+def _parser(ctx, repo, n, reader=0):
+    """the reading parser; every dumped text spells its zone, so the
+    reader's own zone defaults (variants 1-4) must not matter"""
+    if (n, reader) not in ctx.parsers:
+        ctx.parsers[(n, reader)] = repo.parsers.TimePointParser(
+            num_expanded_year_digits=n, **READERS[reader])
+    ctx.cls("reader/%d" % reader)
+    return ctx.parsers[(n, reader)]
 
 
 def _fields_close(p, q):
@@ -107,7 +118,7 @@ def _run_case(ctx, repo, case, MODE):
         ctx.ev("roundtrip.default")
         try:
             s = str(p)
-            q = _parser(ctx, repo, n).parse(s)
+            q = _parser(ctx, repo, n, case.get("reader", 0)).parse(s)
             s2 = str(q)
         except Exception as exc:
             ctx.violation("default.raised", "str/parse round trip of %r "
@@ -157,7 +168,28 @@ def _run_case(ctx, repo, case, MODE):
         ctx.dumpers[nd] = repo.dumpers.TimePointDumper(
             num_expanded_year_digits=nd)
     try:
-        s = ctx.dumpers[nd].dump(p, fmt)
+        if case["op"] == "own-format":
+            # the point carries the format itself: str(p) must be what the
+            # dumper agreed on p's number of year digits prints
+            own = repo.tp(dict(case["p"], dump_format=fmt))
+            s = str(own)
+            ctx.cls("own-format/%d-digits" % nd)
+            ctx.in_oracle += 1
+            try:
+                try:
+                    ref_s = ctx.dumpers[nd].dump(p, fmt)
+                except Exception:
+                    ref_s = None
+            finally:
+                ctx.in_oracle -= 1
+            if ref_s is not None and ref_s != s:
+                ctx.violation("own-format.differs", "str() of %r carrying "
+                              "dump format %r is %r, the dumper for %d "
+                              "expanded digits prints %r" % (
+                                  key, fmt, s, nd, ref_s), p=key, fmt=fmt)
+                return
+        else:
+            s = ctx.dumpers[nd].dump(p, fmt)
     except repo.exceptions.TimePointDumperBoundsError as exc:
         # legitimate only when the year the format must print (in the
         # format's representation, after its zone conversion) does not fit
@@ -183,7 +215,7 @@ def _run_case(ctx, repo, case, MODE):
             key, fmt, exc), p=key, fmt=fmt)
         return
     try:
-        q = _parser(ctx, repo, nd).parse(s)
+        q = _parser(ctx, repo, nd, case.get("reader", 0)).parse(s)
     except Exception as exc:
         ctx.violation("custom.unparseable", "dump(%r, %r) = %r cannot be "
                       "parsed back: %r" % (key, fmt, s, exc), p=key, fmt=fmt)
@@ -308,7 +340,8 @@ def workload(ctx, repo):
     for k in range(n):
         mode = R.MODES[k % 4] if k % 5 == 0 else "gregorian"
         kw, form, off = make_point(rng, mode)
-        case = {"op": "default", "p": kw, "form": form, "mode": mode}
+        case = {"op": "default", "p": kw, "form": form, "mode": mode,
+                "reader": (k // 2) % 4}
         ctx.cls("mode/" + mode)
         if k % 6 == 0:
             tw = gen.twin_of(rng, mode, kw)
@@ -326,10 +359,20 @@ def workload(ctx, repo):
         if k % 701 == 0:
             ctx.sample(case)
         run_case(ctx, repo, case)
+        if k % 7 == 3:
+            fmt, spec = make_custom(rng, kw, form, off)
+            nd = kw.get("num_expanded_year_digits", 0)
+            if spec["nexp"] == nd or (not nd and "+X" not in fmt):
+                spec["nexp"] = nd
+                case = {"op": "own-format", "p": kw, "fmt": fmt,
+                        "spec": spec, "mode": mode, "reader": k % 4}
+                ctx.case = case
+                ctx.ev("cases.own-format")
+                run_case(ctx, repo, case)
         if k % 3 != 2:
             fmt, spec = make_custom(rng, kw, form, off)
             case = {"op": "custom", "p": kw, "fmt": fmt, "spec": spec,
-                    "mode": mode}
+                    "mode": mode, "reader": (k // 3) % 4}
             ctx.case = case
             if k % 701 == 1:
                 ctx.sample(case)
